@@ -3,6 +3,7 @@
 From Coq Require Import List Arith.
 Import ListNotations.
 From V Require Import Model.Align Proofs.AlignValid Proofs.AlignProofs.
+From V Require Import Model.SnapOps Model.TreeAssign Proofs.TreeAssignProofs.
 
 (* the script computed for (old, new) is a valid edit script: it consumes both sequences exactly and
    marks `m` only on equal pairs, for an arbitrary (not necessarily transitive or symmetric) == *)
@@ -46,6 +47,17 @@ Theorem C11_align_no_i_then_d : forall (A B : Type) (eqb : A -> B -> bool) (a : 
   align A B eqb a b <> p ++ Di :: Dd :: q.
 Proof. exact align_no_i_then_d. Qed.
 
+(* nested containers: a subtree whose value did not change keeps its source text verbatim at any depth (update not approved) *)
+Theorem C11_tree_equal_keeps_text :
+  forall (F : flags) (o : tree) (n : val),
+  f_update F = false -> elt_eqb o n = true -> verbatim (assign_tree F o n) = Some o.
+Proof. exact tree_equal_keeps_text. Qed.
+
+Theorem C11_tree_noflags_identity :
+  forall (F : flags) (o : tree) (n : val),
+  f_fix F = false -> f_update F = false -> verbatim (assign_tree F o n) = Some o.
+Proof. exact tree_noflags_identity. Qed.
+
 Print Assumptions C11_align_valid.
 Print Assumptions C11_add_x_valid.
 Print Assumptions C11_align_prefix_m.
@@ -55,3 +67,5 @@ Print Assumptions C11_add_x_count_m.
 Print Assumptions C11_align_refl_all_m.
 Print Assumptions C11_nw_optimal.
 Print Assumptions C11_align_no_i_then_d.
+Print Assumptions C11_tree_equal_keeps_text.
+Print Assumptions C11_tree_noflags_identity.
